@@ -11,6 +11,7 @@ configuration, so each variant carries only the hypotheses of its own direction 
 from pyvc.api import INT, STR, Dict, Loop, Ref, Runtime, Set, contract
 
 from . import c06rt
+from .c06sets import NAMESET, NAMESET_CTOR
 from .c06 import AL, KEYS, W, _ALL_ANCHORS, _at, _m_complete, _m_sound, _p_complete, _p_wit, _some_mark_named
 
 FN = W + "MarkFeatureWriter._getAnchorPairs"
@@ -78,14 +79,16 @@ contract(
     FN,
     name="counterpart",
     **COMMON,
-    comp_membership=True,  # membership characterisation of `S.update(<filtered generator>)` (opt-in engine axiom)
+    # `markAnchorNames` as a set OBJECT whose update is the union with the image set of the generator (contracts/c06sets.py): the
+    # value-level encoding of `S.update(<generator>)` goes through an intermediate list whose facts make this direction seed-sensitive
+    globals={"set": NAMESET_CTOR},
+    modifies=[NAMESET + ".elems"],  # (the local set object)
     ensures={
         # equality of names, not prefix
         "only-with-counterpart": f"all({_some_mark_named('result[k]')} for k in result)",
     },
     canaries={"empty": "len(result) == 0"},
-    locals=LOCALS,
-    # (no hint at the update statement here: an extra forall-exists fact about the new set slows this step down)
+    locals={"markAnchorNames": Ref(NAMESET), "anchorPairs": Dict(STR, STR)},
     loops={
         LOOP1: Loop(index="i1", invariants={"m-sound": _m_sound("i1")}),
         LOOP2: Loop(index="i2", invariants={"in-marks": "all(anchorPairs[k] in markAnchorNames for k in anchorPairs)"}),
